@@ -14,7 +14,9 @@ fn decode_scenario(u: &mut Unstructured, with_failure: bool) -> Scenario {
     let b = u.arbitrary::<u8>().unwrap_or(0);
     let failure = if with_failure {
         let sel = u.arbitrary::<u16>().unwrap_or(0);
-        let kind = match u.arbitrary::<u8>().unwrap_or(0) % 5 {
+        let kind = match u.arbitrary::<u8>().unwrap_or(0) % 7 {
+            5 => FailKind::PanicAfterPrevReplaced,
+            6 => FailKind::ErrAfterPrevReplaced,
             0 => FailKind::ErrRet,
             1 => FailKind::PanicBefore,
             2 => FailKind::PanicAfterDrop,
@@ -30,9 +32,10 @@ fn decode_scenario(u: &mut Unstructured, with_failure: bool) -> Scenario {
         let a = u.arbitrary::<u8>().unwrap_or(0);
         actions.push(Action {
             convert: a & 1 == 1,
-            prev: match (a >> 1) % 3 {
+            prev: match (a >> 1) % 4 {
                 0 => PrevUse::Ignore,
                 1 => PrevUse::Read,
+                2 => PrevUse::Replace(a >> 3),
                 _ => PrevUse::Modify(a >> 3),
             },
         });
@@ -55,8 +58,9 @@ fuzz_target!(|data: &[u8]| {
                 from: u.arbitrary::<u8>().unwrap_or(0),
                 to: u.arbitrary::<u8>().unwrap_or(1),
                 len: u.arbitrary::<u8>().unwrap_or(0) % 48,
-                spare: u.arbitrary::<u8>().unwrap_or(0) % 4,
+                spare: u.arbitrary::<u16>().unwrap_or(0) % 5000,
                 try_entry: u.arbitrary::<bool>().unwrap_or(false),
+                unwinding: u.arbitrary::<u8>().unwrap_or(0) % 5 == 0,
             };
             if let Err(f) = check_mismatch(&c) {
                 report(&prop, serde_json::to_value(&c).unwrap(), &f.signature, &f.message);
